@@ -49,11 +49,20 @@ def Rt.poll (s : Rt) : Bool := s.bell > 0
 /-- atomic: `read(event_fd)` until EAGAIN: the counter is reset -/
 def Rt.drain (s : Rt) : Rt := { s with bell := 0 }
 
-/-- atomic: the locked section of `async_runtime_wait`: take up to `max` entries, ring again when some remain -/
+/-- atomic (ring_lock held, nobody else can touch the ring): copy out up to `max` entries -/
+def Rt.take (s : Rt) (max : Nat) : Rt × List Item :=
+  ({ s with ring := s.ring.drop max }, s.ring.take max)
+
+/-- atomic (still under ring_lock): the caller's array was full and entries remain: `write(event_fd, 1)` again -/
+def Rt.rearm (s : Rt) : Rt := { s with bell := if s.ring.isEmpty then s.bell else s.bell + 1 }
+
+/-- the whole locked section of `async_runtime_wait`: take up to `max` entries, ring again when some remain -/
 def Rt.pop (s : Rt) (max : Nat) : Rt × List Item :=
   let out := s.ring.take max
   let rest := s.ring.drop max
   ({ bell := if rest.isEmpty then s.bell else s.bell + 1, ring := rest }, out)
+
+theorem Rt.pop_eq_take_rearm (s : Rt) (max : Nat) : s.pop max = ((s.take max).1.rearm, (s.take max).2) := rfl
 
 /-- one whole `async_runtime_post_completion` call; result = return code -/
 def Rt.post (s : Rt) (it : Item) : Rt × Int :=
